@@ -110,8 +110,8 @@ impl Ctx {
                     .min(16)
             });
         let deadline = match tier {
-            Tier::Quick => Duration::from_secs(env_u64("VERIF_QUICK_SECS", 60)),
-            Tier::Thorough => Duration::from_secs(env_u64("VERIF_THOROUGH_SECS", 600)),
+            Tier::Quick => Duration::from_secs(env_u64("VERIF_QUICK_SECS", 150)),
+            Tier::Thorough => Duration::from_secs(env_u64("VERIF_THOROUGH_SECS", 900)),
         };
         Ctx {
             prop: prop.to_string(),
